@@ -5,6 +5,7 @@ import (
 	"fmt"
 	"iter"
 	"maps"
+	"reflect"
 	"slices"
 )
 
@@ -335,4 +336,10 @@ func deepClone(v any) (any, error) {
 	default:
 		return v, nil
 	}
+}
+
+// sameObject reports whether two maps (or two non-empty slices) are the same
+// object, not merely equal.
+func sameObject(a, b any) bool {
+	return reflect.ValueOf(a).Pointer() == reflect.ValueOf(b).Pointer()
 }
